@@ -58,7 +58,7 @@ pub fn bases() -> Vec<Base> {
                         if eth && ihl_field == 5 && tag.is_empty() {
                             // MAC addresses that read like the start of a raw IPv4 / IPv6 header: only the order in which the
                             // framings are tried tells the frame apart from a raw-IP one
-                            for (mname, macs) in [("macs-like-ipv4-header", [0x45u8, 0, 0, 0x28, 0, 0, 0x40, 0, 0x40, 0x06, 0, 0]), ("macs-like-ipv6-header", [0x60, 0, 0, 0, 0, 0x14, 0x06, 0x40, 0x20, 0x01, 0, 0])] {
+                            for (mname, macs) in [("macs-like-ipv4-header", [0x45u8, 0, 0, 0x28, 0, 0, 0x40, 0, 0x40, 0x06, 0, 0]), ("macs-like-ipv6-header", [0x60, 0, 0, 0, 0, 0x14, 0x06, 0x40, 0x20, 0x01, 0, 0]), ("macs-like-loopback-1e-ipv4", [0x1e, 0, 0x5e, 0x12, 0x45, 0x01, 0x02, 0, 0, 0x06, 0, 0x01]), ("macs-like-loopback-1e-ipv6", [0x1e, 0, 0, 0, 0x60, 0x01, 0x02, 0, 0, 0, 0x06, 0x01]), ("macs-like-loopback-02", [0x02, 0, 0, 0, 0x45, 0x00, 0x00, 0x28, 0, 0, 0x40, 0x00])] {
                                 let mut f = frame.clone();
                                 f[..12].copy_from_slice(&macs);
                                 v.push(Base { name: format!("{}-ihl5-eth-{mname}-{}", if v6 { "v6" } else { "v4" }, if flags == SYN { "syn" } else { "data" }), frame: f, ip: 14, v6, ihl });
